@@ -99,12 +99,12 @@ func init() { register("cuckoo", suiteCuckoo) }
 func suiteCuckoo(c *Ctx) {
 	c.rep.Rule = "case = (bucket count, bucket size, fingerprint length, retries, backend, constructor) x history of Insert(destructive|not)/Remove/Lookup over a pool sized 0.5-1.5x capacity with duplicates, random eviction choices mirrored from a per-insert seed; non-trivial = history containing at least one relocation (kick) or a failed insert; distinct by (config, history)"
 	cases := c.scale(150, 1500)
-	ns := []uint64{1, 2, 4, 8, 16, 32, 2, 4, 8, 3, 5, 7, 10}
+	ns := []uint64{1, 2, 4, 8, 16, 32, 2, 4, 8, 3, 5, 7, 10, 12}
 	for i := 0; i < cases; i++ {
 		redis := i%3 == 2
 		cfg := cuckooCfg{
 			n:       ns[c.rng.Intn(len(ns))],
-			b:       []uint64{1, 2, 4, 8}[c.rng.Intn(4)],
+			b:       []uint64{1, 2, 4, 8, 2, 4, 13}[c.rng.Intn(7)],
 			fpl:     []uint64{1, 2, 3, 4, 8, 1, 2, 3, 17, 19, 20}[c.rng.Intn(11)],
 			retries: []uint64{0, 1, 2, 3, 10, 50, 500}[c.rng.Intn(7)],
 			redis:   redis,
